@@ -1,30 +1,11 @@
 use crate::common::*;
-use std::time::Instant;
 pub fn check(rep: &mut Report) {
-    let mut ctx = fresh_builtin_ctx();
-    let r = run(&mut ctx, "use core::functions\nuse core::lists\nuse math::statistics\nuse math::geometry\nuse units::si");
-    println!("{:?}", r.err_string());
-    run(&mut ctx, "fn fu(x, y) = x * y + abs(x * y)");
-    for call in ["fu(3 m, 5 s)", "fu(true, 2)", "2"] {
-        let t = Instant::now();
-        for _ in 0..2000 {
-            let r = run(&mut ctx, call);
-            std::hint::black_box(r);
-        }
-        println!("run {call}: {:.1} us", t.elapsed().as_secs_f64() / 2000.0 * 1e6);
-        let t = Instant::now();
-        for _ in 0..2000 {
-            let mut settings = numbat::InterpreterSettings { print_fn: Box::new(|_| {}) };
-            let r = ctx.interpret_with_settings(&mut settings, call, numbat::resolver::CodeSource::Text).is_ok();
-            std::hint::black_box(r);
-        }
-        println!("bare {call}: {:.1} us", t.elapsed().as_secs_f64() / 2000.0 * 1e6);
-    }
-    let t = Instant::now();
-    for _ in 0..200 {
-        std::hint::black_box(ctx.clone());
-    }
-    println!("clone: {:.1} us", t.elapsed().as_secs_f64() / 200.0 * 1e6);
+    let mut ev = crate::units::Evaluator::new(all_ctx());
+    let r = ev.eval("(1 * BTU) -> planck_energy");
+    let shown = r.value().map(|v| v.pretty_print().to_string()).unwrap_or_default();
+    println!("{:?} {:?}", shown, shown.as_bytes());
+    let r2 = ev.eval(&format!("let zz = ({shown})"));
+    println!("{:?}", r2.err_string());
     rep.states = 1; rep.transitions = 1;
 }
 pub fn replay(_c: &serde_json::Value) -> i32 { 2 }
